@@ -416,6 +416,10 @@ def call_builtin(eng, fn, args, kwargs):
         raise Unsupported('hash of symbolic')
     # numpy
     if np is not None:
+        if fn is np.asarray and isinstance(a0, SArr):
+            return a0                      # no copy: the same array
+        if fn in (np.array, np.copy) and isinstance(a0, SArr):
+            return SArr(list(a0.items))
         if fn is np.array and isinstance(a0, (list, tuple)) and any(isinstance(x, Sym) for x in a0):
             return SArr([x if isinstance(x, (int, float)) else zint(x) for x in a0])
         if fn is np.ones or fn is np.zeros:
